@@ -119,7 +119,9 @@ class PbnParser(Parser):
             # game except the first game of the PBN file.
             match = re.fullmatch(self.REPLACE_PATTERN, line)
             if match and not self._in_comment:
-                yield self.parse_board()
+                # Consecutive (or leading) semi-empty lines do not make a game.
+                if len(self.tag_pair_buffer) != 0:
+                    yield self.parse_board()
 
                 # initialization
                 self.tag_pair_buffer = list()
